@@ -426,6 +426,6 @@ func plans(tier string) []mc.Plan {
 }
 
 func init() {
-	mc.Register(&mc.Check{ID: "C15", Plans: plans, Budget: map[string]int{"quick": 120, "thorough": 1200},
+	mc.Register(&mc.Check{ID: "C15", Plans: plans, Budget: map[string]int{"quick": 240, "thorough": 1200},
 		Notes: "C15: real drpcpool.Pool with logging fake connections and virtual timers; the put/take/close/mark-dead/mark-blocked sequence is a data choice of the explorer (all sequences up to the stated length over 8 symbols and 12 capacity/key-capacity/expiration configurations); expiry timers are pseudo-threads whose firing and whose callback are scheduled anywhere within the preemption bound (fired-but-not-finished is an ordinary state); optional second thread; the Pool.Get wrapper with two concurrent users."})
 }
